@@ -864,11 +864,36 @@ def r13(R):
                 for e, truth in implied_atoms(node.ast, lab):
                     if isinstance(e, ast.Name) and e.id == 'exists':
                         exists = 'yes' if truth else 'no'
+                    if isinstance(e, ast.Call) and dotted(e.func) and \
+                            dotted(e.func)[-1] == 'listdir' and not truth:
+                        exists = 'empty-dir'
             return (exists, asked)
 
         def at(node, st, F=F, meth=meth):
             exists, asked = st
             for op in F.ops(node):
+                # a storage WITH undo keeps the revisions of an object that
+                # is gone now (snapshots between the pack time and the
+                # deletion read them): only an empty directory goes as a
+                # whole, files go one by one
+                if meth == '_packUndoing' and op.kind == 'call' and \
+                        op.path and op.path[-1].split('.')[-1] in (
+                            'remove_committed_dir', 'rmtree') and \
+                        exists != 'empty-dir':
+                    return Violation(
+                        'BlobStorage._packUndoing removes a whole blob '
+                        'directory that is not known to be empty (for '
+                        'instance because the object does not exist NOW): '
+                        'the wrapped storage keeps the revisions from the '
+                        'pack time up to the deletion, so snapshots in '
+                        'between keep the record and lose the blob bytes')
+                if meth == '_packUndoing' and op.kind == 'call' and \
+                        op.path and op.path[-1].split('.')[-1] == \
+                        'remove_committed' and not asked:
+                    return Violation(
+                        'BlobStorage._packUndoing removes a blob file '
+                        'without having asked the wrapped storage whether '
+                        'THIS revision is gone')
                 if op.kind == 'call' and op.path and op.path[-1].split(
                         '.')[-1] == 'remove_committed':
                     if exists != 'no' and not asked:
